@@ -15,7 +15,8 @@ RULE = ("random sequences of declare / gate / measure-statement / measure-expres
         "constant or computed index, function / @quantum function / method parameter, object field, "
         "field of a field, recycled index), misuse deliberately included (profile 'flags', and 'flags_recycle' "
         "which destroys objects owning several qubits and re-declares qubits on the freed indices before the "
-        "misuse); thorough adds "
+        "misuse) and the directed 'recycle' family (an object with several qubits dies, its indices go to new "
+        "declarations one by one, one of which is measured and touched again); thorough adds "
         "all sequences of length <= 4 over 2 qubits x {h, measure, reset} x 3 naming paths. Expected: "
         "exit 0 iff the model never operates on a measured qubit, else exit 1 with 'Runtime error at Ln L' "
         "where L is the line of the first offending built-in call, and no traced simulator operation for "
@@ -110,6 +111,7 @@ def run(ctx):
     # every third program runs as two shots: all but the last shot execute with QASM logging off
     cases = [dict(profile="flags", index=i, shots=(2 if i % 3 == 0 else 0)) for i in range(n)]
     cases += [dict(profile="flags_recycle", index=i, shots=(2 if i % 4 == 0 else 0)) for i in range(n // 2)]
+    cases += [dict(profile="recycle", index=i, shots=0) for i in range(n // 4)]
 
     def one(case):
         res = qlang.check_case(ctx, "C06", binary, case, report_props={"C06", "HARNESS"})
